@@ -46,6 +46,8 @@ EXPECT = {
     'X2b': [('FixtureShared::Lookup', 'strchr')],
     'X3': [('FixtureShared::WriteThenThrow', 'out')],
     'X4': [('FixtureShared::NanThrows', 'lat@'), ('FixtureShared::NanThrowsViaHelper', 'lon@')],
+    'X9': [('FixtureShared::HalfFilled', 'buf')],
+    'X10': [('FixtureShared::Decode', 'lat')],
     'W1': [('FixtureShared::HalfWritten', 'northp')],
     'X6': [('FixtureShared::Spin', 'loop@')],
     'X7': [('FixtureShared::Pick', 'alphabet')],
@@ -81,6 +83,12 @@ def run_controls(rules):
             res = exc.rule_X4(fx, None)[0]
         elif r == 'X6':
             res = exc.rule_X6(fx, None)[0]
+        elif r == 'X9':
+            from .rules import fill
+            res = fill.rule_X9(fx, files=('controls.cpp',))[0]
+        elif r == 'X10':
+            from .rules import decode
+            res = decode.rule_X10(fx, [NS + 'FixtureShared::Decode'], maxlen=4)[0]
         elif r == 'W1':
             from .rules import total
             res = total.rule_W1(fx, None)[0]
